@@ -99,7 +99,7 @@ def cases(tier):
                         if tier != "thorough" and width == 2 and (N, g) not in ((2, "geom"), (3, "uniform")):
                             continue
                         for combo in ("param", "var", "both"):
-                            if combo == "both" and (width == 2 or N > 2):
+                            if combo == "both" and N > 2:
                                 continue
                             ders = (True,) if meth == "Spline" else ((False, True) if (combo == "param" and d >= 1 and width == 1) else (False,))
                             for wd in ders:
@@ -364,7 +364,7 @@ def declare_chains(ocp, chains, vec):
     return out
 
 
-def spline_program(meth, chains, N, g, vec, refine_con=1, inc=(True, True)):
+def spline_program(meth, chains, N, g, vec, refine_con=1, inc=(True, True), with_offset=False):
     import rockit
     ocp = rockit.Ocp(t0=0.3, T=1.9)
     ch = declare_chains(ocp, chains, vec)
@@ -375,6 +375,9 @@ def spline_program(meth, chains, N, g, vec, refine_con=1, inc=(True, True)):
         ocp.subject_to(-1.5 <= (u <= 1.5))
         ocp.subject_to(xs[0] <= 3, refine=refine_con, **kw) if meth == "Spline" else ocp.subject_to(xs[0] <= 3, **kw)
         ocp.subject_to(ocp.at_t0(xs[0]) == 0.1)
+        if with_offset:
+            # a second path constraint with a shifted operand (it has no instance at the final node)
+            ocp.subject_to(ocp.next(xs[0]) - xs[0] <= 0.7)
     ocp.add_objective(sum(ocp.at_tf(ca_sumsqr(xs[0] - 1)) for xs, u in ch) + sum(ocp.sum(ca_sumsqr(u)) for xs, u in ch))
     ocp.solver("ipopt", {"ipopt.print_level": 0, "print_time": False, "ipopt.sb": "yes"})
     gr = rockit_grid(g)
@@ -387,12 +390,12 @@ def ca_sumsqr(e):
     return ca.sumsqr(e)
 
 
-def spline_path_rows(chains, N, g, vec, r, inc):
+def spline_path_rows(chains, N, g, vec, r, inc, with_offset=False):
     """SplineMethod NLP of a chain program with x<=3 declared with refine=r and include_first/include_last = inc:
     returns (#kept instances missing from the NLP, #kept instances, #excluded end-point instances present in the NLP)"""
     import casadi as ca
     nn = 2 if vec else 1
-    ocp2, ch2 = spline_program("Spline", chains, N, g, vec, refine_con=r, inc=inc)
+    ocp2, ch2 = spline_program("Spline", chains, N, g, vec, refine_con=r, inc=inc, with_offset=with_offset)
     nlp2 = NL.Nlp(ocp2)
     pts = [NL.generic(nlp2.nx, q, 0, lo=-0.7, hi=1.2) for q in range(3)]
     f, rows = NL.canon_rows(nlp2, pts)
@@ -407,6 +410,15 @@ def spline_path_rows(chains, N, g, vec, r, inc):
             keep = not ((i == 0 and not inc[0]) or (i == npt - 1 and not inc[1]))
             for e in range(nn):
                 (refs if keep else dropped).append(dict(kind="ineq", fp=np.array([3 - v_[e, i] for v_ in vals]), origin="path:%d" % i))
+    if with_offset:
+        for xs, u in ch2:
+            _, xv = ocp2.sample(xs[0], grid="control")
+            Fx = ca.Function("f", [nlp2.x, nlp2.p], [xv])
+            vals = [np.atleast_2d(np.array(Fx(p_, nlp2.p0))) for p_ in pts]
+            vals = [v_.reshape(nn, -1, order="F") if v_.shape[0] != nn else v_ for v_ in vals]
+            for i in range(vals[0].shape[1] - 1):
+                for e in range(nn):
+                    refs.append(dict(kind="ineq", fp=np.array([0.7 - (v_[e, i + 1] - v_[e, i]) for v_ in vals]), origin="path:next:%d" % i))
     missing, extra = NL.match_rows(rows, refs)
     n_extra = 0
     if dropped:
